@@ -56,8 +56,10 @@ pub fn vec_formatter_primitives() {
 pub fn vec_response_unit_separator() {
     let npre: usize = kani::any();
     kani::assume(npre <= 2);
+    let pre: [u8; 2] = kani::any();
+    kani::cover!(npre == 2 && pre[1] == b'\n');
     let mut v = alloc::vec::Vec::<u8>::new();
-    v.extend_from_slice(&b"xy"[..npre]);
+    v.extend_from_slice(&pre[..npre]);
     {
         let u = v.response_unit();
         assert!(u.is_ok(), "C10/Vec::response_unit/ok");
@@ -135,7 +137,7 @@ macro_rules! array_harness {
             let mut i = 0;
             while i < CAP {
                 if i < npre {
-                    a.push(b'x');
+                    a.push(kani::any());
                 }
                 i += 1;
             }
